@@ -6,6 +6,7 @@ import (
 	"time"
 
 	"github.com/AdguardTeam/golibs/errors"
+	"github.com/AdguardTeam/golibs/netutil"
 	"github.com/AdguardTeam/urlfilter/rules"
 	"github.com/miekg/dns"
 )
@@ -278,7 +279,10 @@ func (c *Constructor) newSOARecords(req *dns.Msg) (soaRecs []dns.RR) {
 		Mbox: "hostmaster.",
 	}
 
-	if len(zone) > 0 && zone[0] != '.' {
+	// Only append the zone if the resulting name, which ends with a dot, is
+	// still a valid domain name, since responses with names that are too long
+	// cannot be decoded by clients.
+	if len(zone) > 0 && zone[0] != '.' && len(soa.Mbox)+len(zone) <= netutil.MaxDomainNameLen+1 {
 		soa.Mbox += zone
 	}
 
